@@ -113,7 +113,7 @@ func vpH_C12_loop() {
 	}
 	vpAssert(len(recv) == len(want), "C12.loop-handler-gets-exactly-the-valid-frames")
 	for i := 0; i < len(want) && len(recv) > 0; i++ {
-		vpAssert(vpSameObject(<-recv, want[i]), "C12.loop-handler-gets-frames-in-the-order-sent")
+		vpAssert(vpUnchanged(<-recv, want[i]), "C12.loop-handler-gets-frames-in-the-order-sent")
 	}
 	vpAssert(len(send) == rejected, "C12.loop-one-rejection-per-invalid-frame")
 	for len(send) > 0 {
